@@ -291,9 +291,19 @@ impl Directive {
             Directive::Include => {
                 if let DirectiveOps::OpList(values) = &opts {
                     if let Operand::S(include) = &values[0] {
+                        // file next to the including file goes before files with the same
+                        // name in other known directories
+                        let mut path = PathBuf::from(include);
+                        if !path.exists() && current_path.is_file() {
+                            if let Some(beside) = current_path.parent().map(|x| x.join(&path)) {
+                                if beside.exists() {
+                                    path = beside;
+                                }
+                            }
+                        }
                         let context = ParseContext {
                             include_depth: include_depth + 1,
-                            current_path: PathBuf::from(include),
+                            current_path: path,
                             include_paths: include_paths.clone(),
                             common_context: common_context.clone(),
                             segments: segments.clone(),
